@@ -122,8 +122,10 @@ Definition verdict_row (c : rcase) : nat :=
 Record scase := SCase {
   sc_world : world;
   sc_args : args;
+  sc_diff : bool;             (* `stub --diff`: get_diff runs get_stub twice, so the report appears twice *)
   sc_rows1 : list row;        (* what the real store.filter returns, in that order *)
-  sc_exp1 : list expect;      (* for each of them: valid / stale (BY CONSTRUCTION of the fixture) / outside the property *)
+  sc_exp1 : list expect;      (* for each row INSERTED for this module/specifier: valid / stale (BY CONSTRUCTION of
+                                 the fixture) / outside the property -- independent of what the store query returns *)
   sc_obs1 : outcome;          (* observed: stdout chunk, stderr lines, status *)
   sc_rows2 : list row;        (* store.filter on the database holding only the rows that are valid by construction *)
   sc_obs2 : outcome
@@ -148,16 +150,18 @@ Definition last_is_no_traces (err : list string) : bool :=
 Definition prop_pred (c : scase) : bool :=
   let n := n_stale (sc_exp1 c) in
   let verbose := a_verbose (sc_args c) in
-  let nrep := if verbose then n else if Nat.eqb n 0 then 0 else 1 in
+  let passes := if sc_diff c then 2 else 1 in
+  let nrep := passes * (if verbose then n else if Nat.eqb n 0 then 0 else 1) in
+  let cl := if Nat.eqb n 0 then [] else [count_line n] in
   match sc_obs1 c, sc_obs2 c with
   | Exit out1 err1 rc1, Exit out2 err2 rc2 =>
       list_str_eqb out1 out2
       && Nat.eqb rc1 0
       && (if verbose
-          then Nat.eqb (List.length (firstn n err1)) n
-               && forallb (String.prefix "WARNING: Failed decoding trace: ") (firstn n err1)
-               && list_str_eqb (skipn n err1) err2
-          else list_str_eqb err1 ((if Nat.eqb n 0 then [] else [count_line n]) ++ err2))
+          then Nat.eqb (List.length (firstn nrep err1)) nrep
+               && forallb (String.prefix "WARNING: Failed decoding trace: ") (firstn nrep err1)
+               && list_str_eqb (skipn nrep err1) err2
+          else list_str_eqb err1 (cl ++ (if sc_diff c then cl else []) ++ err2))
       && (if Nat.eqb (n_valid (sc_exp1 c)) 0
           then match out1 with [] => true | _ => false end
                && last_is_no_traces err1 && Nat.eqb (List.length err1) (S nrep)
@@ -180,11 +184,24 @@ Definition model_run (c : scase) (rows : list row) : outcome :=
       (fun s => AOk s)
       (sc_args c) (sc_world c) rows.
 
+(* `stub --diff`: get_diff calls get_stub twice on the same store (REPLICATE, then IGNORE), each pass decodes and
+   reports; stdout is the diff of the two stubs (observed through the second run, like `build`).  --sample-count is
+   not combined with --diff by the generator (3 = malformed case). *)
+Definition model_run_any (c : scase) (rows : list row) : outcome :=
+  if sc_diff c then
+    match model_run c rows with
+    | Exit out err rc =>
+        Exit out (report (a_verbose (sc_args c)) (failures subscript_c (sc_world c) rows) ++ err) rc
+    | o => o
+    end
+  else model_run c rows.
+
 Definition verdict_cli (c : scase) : nat :=
-  if negb (Nat.eqb (List.length (sc_rows1 c)) (List.length (sc_exp1 c))) then 3 else
+  if sc_diff c && (a_sample_count (sc_args c) || match a_cmd (sc_args c) with CApply => true | CStub => false end) then 3 else
   if negb (has_outside (sc_exp1 c)) && negb (prop_pred c) then 2 else
-  if outcome_eqb (model_run c (sc_rows1 c)) (sc_obs1 c)
-     && (has_outside (sc_exp1 c) || outcome_eqb (model_run c (sc_rows2 c)) (sc_obs2 c))
+  if negb (Nat.eqb (List.length (sc_rows1 c)) (List.length (sc_exp1 c))) then 1 else
+  if outcome_eqb (model_run_any c (sc_rows1 c)) (sc_obs1 c)
+     && (has_outside (sc_exp1 c) || outcome_eqb (model_run_any c (sc_rows2 c)) (sc_obs2 c))
   then 0 else 1.
 
 (* stub of rows == stub of the same rows with the traced names that are no longer parameters removed *)
